@@ -168,6 +168,10 @@ func drawCase(rt *rapid.T) shrinkCase {
 				}
 			case 3:
 				cmd = []string{"SETCHAN", "during", "NEARBY", "fencekey", "FENCE", "POINT", "1", "1", "10"}
+				if rapid.Bool().Draw(t, "reshrink") {
+					// a second AOFSHRINK while one is running must be a no-op
+					cmd = []string{"AOFSHRINK"}
+				}
 			default:
 				cmd = gen.KeyspaceCmd(t, ns)
 			}
@@ -193,7 +197,7 @@ func drawCase(rt *rapid.T) shrinkCase {
 func isWrite(cmd []string) bool {
 	switch strings.ToLower(cmd[0]) {
 	case "set", "fset", "del", "pdel", "drop", "flushdb", "rename", "renamenx", "expire", "persist", "jset", "jdel",
-		"sethook", "setchan", "delhook", "delchan", "pdelhook", "pdelchan":
+		"sethook", "setchan", "delhook", "delchan", "pdelhook", "pdelchan", "aofshrink":
 		return true
 	}
 	return false
